@@ -419,7 +419,7 @@ class World(BaseWorld):
 
     PURE_BOOL = ["value_fn", "to_spin_fn", "to_qubo", "to_quso", "to_pubo", "to_puso", "to_enumerated", "solve_fn", "solve_method", "anneal",
                  "extrema", "temperature_range", "subgraph", "subvalue", "normalize_fn", "subs", "round", "pretty_str", "is_valid", "remove_ancilla",
-                 "convert_solution", "as_constraint_operand", "as_arith_operand", "sat_operand"]
+                 "convert_solution", "as_constraint_operand", "as_arith_operand", "sat_operand", "logic_operand", "as_constraint_operand"]
 
     def gen_pure(self, rng):
         a = self.pick(rng, lambda s: s.t != "num")
